@@ -1,6 +1,10 @@
 import Spine.Header
 open Spine.Hdr
 
+/-! Line-protocol driver of the header-layer model (C05).
+    Arguments: the repairs the harness probed in the tree under test, any of `addr filter pmo noresonres`
+    (`fixed` = the first three). Ops: `cfg` (echo the member), `reset`, `pre sv dv cls ref mc cmds fv rv resp`. -/
+
 def clsOf : String → Option Cls
   | "read" => some .read | "reply" => some .reply | "notify" => some .notify
   | "write" => some .write | "call" => some .call | "result" => some .result | _ => none
@@ -11,8 +15,12 @@ def showPre : Pre → String
   | .errorResult => "error-result"
   | .proceed => "proceed"
 
-def answer (g : Bool) (ws : List String) : String :=
+def b2s (b : Bool) : String := if b then "1" else "0"
+
+def answer (c : Cfg) (ws : List String) : String :=
   match ws with
+  | ["cfg"] => s!"addr={b2s c.addr} filter={b2s c.filter} pmo={b2s c.pmo} noresonres={b2s c.noResOnRes}"
+  | ["reset"] => "ok"
   | ["pre", sv, dv, cls, ref, mc, cmds, fv, rv, resp] =>
     let sv := sv.toNat!; let dv := dv.toNat!
     let d : Raw := {
@@ -20,15 +28,19 @@ def answer (g : Bool) (ws : List String) : String :=
       cls := clsOf cls, ref := if ref = "1" then some 7 else none, msgCounter := mc = "1", responds := resp = "1", cmds := cmds.toNat!,
       filterWithoutCmdControl := fv = "2", resultData := rv ≠ "0", errorNumber := rv = "2",
       srcKnown := sv = 1 || sv = 5, dstKnown := dv = 1 || dv = 5 }
-    showPre (pre g d)
+    showPre (pre c d)
   | _ => "bad-op"
 
-partial def loop (h : IO.FS.Stream) (g : Bool) : IO Unit := do
+partial def loop (h : IO.FS.Stream) (c : Cfg) : IO Unit := do
   let line ← h.getLine
   if line.isEmpty then return ()
   let ws := (line.trimAscii.toString.splitOn " ").filter (· ≠ "")
-  IO.println (answer g ws)
+  IO.println (answer c ws)
   (← IO.getStdout).flush
-  loop h g
+  loop h c
 
-def main (args : List String) : IO Unit := do loop (← IO.getStdin) (args == ["fixed"])
+def main (args : List String) : IO Unit := do
+  let fixed := args.contains "fixed"
+  let c : Cfg := { addr := fixed || args.contains "addr", filter := fixed || args.contains "filter",
+                   pmo := fixed || args.contains "pmo", noResOnRes := args.contains "noresonres" }
+  loop (← IO.getStdin) c
